@@ -301,8 +301,12 @@ def cli_stream(run, cli, rng, tier):
             try:
                 env = dict(os.environ)
                 env['NO_COLOR'] = '1'
+                env.pop('RUST_BACKTRACE', None)
                 p = subprocess.run([cli] + argv, stdout=subprocess.PIPE, stderr=subprocess.PIPE, timeout=120, env=env)
-                return job, p.returncode, p.stderr.decode('utf-8', 'replace')[-300:]
+                err = p.stderr.decode('utf-8', 'replace')
+                # keep the panic message line (if any) plus the tail
+                pm = [l for l in err.split('\n') if 'panicked at' in l or 'assertion' in l or 'overflowed its stack' in l]
+                return job, p.returncode, ' | '.join(pm[:3]) + ' | ' + err[-300:]
             except subprocess.TimeoutExpired:
                 return job, 'timeout', ''
         from concurrent.futures import ThreadPoolExecutor
